@@ -298,6 +298,16 @@ class Check:
                 good += 1
         self.discharged = good
         self.axioms = axioms
+        if self.tier == "thorough" and ok:
+            # independent re-check of the compiled property module by leanchecker
+            try:
+                pc = subprocess.run(["lake", "env", "leanchecker", f"Prs.Properties.{self.pid}"], cwd=LEAN, capture_output=True,
+                                    text=True, timeout=3000)
+                self.notes.append(f"leanchecker Prs.Properties.{self.pid}: exit {pc.returncode}")
+                if pc.returncode != 0:
+                    self.broken_obligations.append(f"leanchecker rejects Prs.Properties.{self.pid}: {(pc.stdout + pc.stderr)[-400:]}")
+            except Exception as e:  # noqa
+                self.notes.append(f"leanchecker not run: {e!r}")
         if self.obligations == 0:
             self.broken_obligations.append("no property theorem found")
         return ok and not self.broken_obligations
